@@ -254,4 +254,92 @@ def r4_apply(a, tier):
     return rep
 
 
-RULES = [r1_tables, r2_gating, r3_inclusion, r4_apply]
+WIDTH_CONSUMERS = {'slicetowidth', 'len', 'textwrap.shorten', 'shorten'}
+PAD_METHODS = {'ljust', 'rjust', 'center', 'zfill', 'expandtabs'}
+
+
+def r5_style_last(a, tier):
+    rep = RuleReport(
+        'C20.R5',
+        'users of styles cut and measure TEXT, then style it: in the modules that render with Style objects (error rendering in '
+        'contexts/memento.py and exceptions.py, contexts/tracing.py) no styled value - the result of calling a Style object, a '
+        'Style(...) construction or a chained style method - is handed to a width consumer (slicetowidth, len, ljust/rjust/center, '
+        'a slice): the escape sequences would be counted and cut as if they were text, so stripping them no longer leaves the text '
+        'formatted as specified',
+        floor=5,
+    )
+    mods = [m for m in a.p.modules.values() if m.name in ('tatsu.contexts.memento', 'tatsu.exceptions', 'tatsu.contexts.tracing')]
+    if len(mods) < 3:
+        raise AnalysisError('rendering modules not found')
+    for m in mods:
+        # attributes / locals that hold Style objects
+        style_attrs = set()
+        for f in [f for f in a.p.functions.values() if f.module is m]:
+            for n in walk_no_defs(f.node):
+                if isinstance(n, ast.Assign) and _is_style_expr(n.value, set(), set()):
+                    for t in n.targets:
+                        if isinstance(t, ast.Attribute):
+                            style_attrs.add(t.attr)
+        for f in [f for f in a.p.functions.values() if f.module is m]:
+            style_locals = set()
+            changed = True
+            while changed:
+                changed = False
+                for n in walk_no_defs(f.node):
+                    if isinstance(n, ast.Assign) and len(n.targets) == 1 and isinstance(n.targets[0], ast.Name) \
+                            and n.targets[0].id not in style_locals and _is_style_expr(n.value, style_attrs, style_locals):
+                        style_locals.add(n.targets[0].id)
+                        changed = True
+            for n in walk_no_defs(f.node):
+                bad = None
+                if isinstance(n, ast.Call):
+                    nm = dotted(n.func)
+                    if (nm in WIDTH_CONSUMERS or nm.split('.')[-1] in WIDTH_CONSUMERS) and n.args and _is_styled(n.args[0], style_attrs, style_locals):
+                        bad = (nm, n.args[0])
+                    elif isinstance(n.func, ast.Attribute) and n.func.attr in PAD_METHODS and _is_styled(n.func.value, style_attrs, style_locals):
+                        bad = (n.func.attr, n.func.value)
+                elif isinstance(n, ast.Subscript) and isinstance(n.slice, ast.Slice) and _is_styled(n.value, style_attrs, style_locals):
+                    bad = ('slice', n.value)
+                if isinstance(n, ast.Call) and _is_styled(n, style_attrs, style_locals):
+                    rep.add({'function': f.qualname, 'styles': norm(n)[:60]})
+                if bad:
+                    rep.fail(f.qualname, f'width-of-styled:{bad[0]}', f'`{norm(n)[:80]}` applies {bad[0]} to the styled value `{norm(bad[1])[:50]}`: with '
+                             f'colour on, the budget counts and cuts escape sequences (the message is truncated earlier than in the plain '
+                             f'rendering and the closing reset can be cut off)', f'{f.module.relpath}:{n.lineno}')
+    return rep
+
+
+STYLE_METHODS = {'bold', 'dim', 'italic', 'underline', 'blink', 'inverse', 'hidden', 'strikethrough', 'fg', 'bg', 'red', 'green', 'blue', 'white',
+                 'black', 'yellow', 'magenta', 'cyan', 'fmt', 'apply', 'markup'}
+
+
+def _is_style_expr(e, style_attrs, style_locals) -> bool:
+    """E evaluates to a Style OBJECT (not yet applied to a text): Style(...), a chained style method on one, a known holder"""
+    if isinstance(e, ast.Call):
+        nm = dotted(e.func)
+        if nm.split('.')[-1] == 'Style' and not e.args:
+            return True
+        if isinstance(e.func, ast.Attribute) and e.func.attr in STYLE_METHODS and _is_style_expr(e.func.value, style_attrs, style_locals):
+            return True
+        return False
+    if isinstance(e, ast.Attribute):
+        return e.attr in style_attrs
+    if isinstance(e, ast.Name):
+        return e.id in style_locals
+    return False
+
+
+def _is_styled(e, style_attrs, style_locals) -> bool:
+    """E is a styled TEXT: a Style object called with a text, Style(text, ...), or a style method chained on a styled text"""
+    if isinstance(e, ast.Call):
+        if _is_style_expr(e.func, style_attrs, style_locals) and e.args:
+            return True
+        nm = dotted(e.func)
+        if nm.split('.')[-1] == 'Style' and e.args:
+            return True
+        if isinstance(e.func, ast.Attribute) and e.func.attr in STYLE_METHODS and _is_styled(e.func.value, style_attrs, style_locals):
+            return True
+    return False
+
+
+RULES = [r1_tables, r2_gating, r3_inclusion, r4_apply, r5_style_last]
